@@ -288,6 +288,19 @@ def hand_framed(run, model, pid):
                 cases.append(("eh-nuls", c04.mini_pel(b"O", [(b"EH", 1, 0, 0x2000, eh), tail]), 1))
                 expect_text[len(cases) - 1] = ("Extended User Header", {"Reporting Machine Type": f.decode().strip("\0"), "Reporting Serial Number": sn.decode().strip("\0"),
                                                                          "FW Released Ver": "FW1", "FW SubSys Version": "SUB", "Symptom Id": "S"})
+    if pid in ("C01", "C02"):
+        # Impacted Partition sections whose name length is not a multiple of four and whose target count is odd or even (the
+        # specification's generator keeps every field aligned): the name is exactly its declared bytes, the targets follow
+        for nl in (1, 2, 3, 5, 6, 7, 9):
+            for cnt in (0, 1, 2, 3):
+                name = (b"LPAR-" + b"x" * 8)[:nl]
+                targets = [0x0100 + 17 * k for k in range(cnt)]
+                body = struct.pack(">HBBI", 0x0042, nl, cnt, 0x50001234) + name + b"".join(struct.pack(">H", t) for t in targets) + (b"\0\0" if cnt % 2 else b"")
+                cases.append(("lp-name:%d:%d" % (nl, cnt), c04.mini_pel(b"O", [(b"LP", 1, 0, 0x2000, body), tail]), 1))
+                want = {"Primary Partition Name": name.decode(), "Length of LP Name": "0x%02X" % nl, "Target LP Count": "0x%02X" % cnt}
+                if cnt:
+                    want["Target LP"] = ["0x%04X" % t for t in targets]
+                expect_text[len(cases) - 1] = ("Impacted Partition", want)
     for ci, (tag, data, nbefore) in enumerate(cases):
         run.evaluations += 1
         run.count("hand-framed:" + tag.split(":")[0])
@@ -306,7 +319,7 @@ def hand_framed(run, model, pid):
             got = impl["doc"].get(sec, {})
             bad = {k: (v, got.get(k)) for k, v in want.items() if got.get(k) != v}
             if bad:
-                run.violation("display:hand-framed:" + sec.replace(" ", "_"), "text fields of the %s section are not shown as stored (NUL padding removed): %r" % (sec, bad),
+                run.violation("display:hand-framed:" + sec.replace(" ", "_"), "fields of the %s section are not shown as stored (NUL padding of text removed): %r" % (sec, bad),
                               dict(rp, expected=want, actual={k: got.get(k) for k in want}))
         if not ok and pid == "C01":
             run.violation("framing:hand-framed", "the section after the %s section is not decoded intact" % tag, dict(rp, keys=keys))
